@@ -11,6 +11,15 @@ SPEC = r'''
 pub uninterp spec fn holds_asn(r: ResourceSet, a: Asn) -> bool;
 pub assume_specification [ResourceSet::contains_asn] (r: &ResourceSet, a: Asn) -> (b: bool) ensures b == holds_asn(*r, a);
 /// a published ASPA object must go: its definition is gone, or its customer AS is not on the current certificate
+/// ASSUMED: the derived PartialEq of AspaDefinition compares customer and provider list
+impl vstd::std_specs::cmp::PartialEqSpecImpl for AspaDefinition {
+    open spec fn obeys_eq_spec() -> bool { true }
+    open spec fn eq_spec(&self, other: &AspaDefinition) -> bool { self.customer == other.customer && self.providers@ == other.providers@ }
+}
+pub assume_specification [<AspaDefinition as PartialEq>::eq] (a: &AspaDefinition, b: &AspaDefinition) -> (r: bool);
+pub open spec fn same_def(a: AspaDefinition, b: AspaDefinition) -> bool { a.customer == b.customer && a.providers@ == b.providers@ }
+pub assume_specification [AspaObjects::make_aspa] (o: &AspaObjects, d: AspaDefinition, k: &CertifiedKey, t: &IssuanceTimingConfig, s: &KrillSigner) -> (r: KrillResult<AspaInfo>)
+    ensures r is Ok ==> same_def(r->Ok_0.definition, d);
 pub open spec fn must_go(defs: AspaDefinitions, res: ResourceSet, c: Asn) -> bool { !defs.attestations@.contains_key(c) || !holds_asn(res, c) }
 '''
 
@@ -21,17 +30,22 @@ def build():
     prelude.strings(U)
     U.opaque('Asn', 'Clone, Copy, PartialEq, Eq, Hash', eq=True)
     U.opaque('ResourceSet', '')
-    for t in ['AspaInfo']:
+    for t in ['CertifiedKey', 'IssuanceTimingConfig', 'KrillSigner', 'Error']:
         U.opaque(t, '')
     U.outside('''
 pub type CustomerAsn = Asn;
 pub type ProviderAsn = Asn;
 impl ResourceSet { pub fn contains_asn(&self, _a: Asn) -> bool { unimplemented!() } }
+pub type KrillResult<T> = Result<T, Error>;
+impl AspaObjects { pub fn make_aspa(&self, _d: AspaDefinition, _k: &CertifiedKey, _t: &IssuanceTimingConfig, _s: &KrillSigner) -> KrillResult<AspaInfo> { unimplemented!() } }
 ''')
-    U.struct(API, 'AspaDefinition', derive=[])
+    U.struct(API, 'AspaDefinition', derive=['Clone', 'PartialEq', 'Eq'], structural=False)
+    # stub: only the field the issuing decision reads (the object itself is opaque)
+    U.add('pub struct AspaInfo { pub definition: AspaDefinition }')
     U.struct(ASPA, 'AspaDefinitions', derive=[])
     U.struct(ASPA, 'AspaObjects', derive=[])
     U.struct(ASPA, 'AspaObjectsUpdates', derive=[])
+    U.add('pub struct Config { pub issuance_timing: IssuanceTimingConfig }   // stub: the one field read here')
     U.add(SPEC)
     km = 'obeys_key_model::<Asn>()'
     U.impl('impl AspaDefinitions', [
@@ -72,6 +86,20 @@ impl ResourceSet { pub fn contains_asn(&self, _a: Asn) -> bool { unimplemented!(
                     if i < g_rem.len() { assert(object_updates.removed@[i] == g_rem[i]); }
                 }
             }'''),
+        # one iteration of the issuing loop (body lifted, R17): an object is (re-)issued exactly when there is none for the
+        # customer AS yet or the existing one was issued for a different definition, and then for exactly the configured definition
+        U.loop_fn(ASPA, 'AspaObjects', 'create_updates', 0, 'vx_issue_one',
+                  '(&self, relevant_aspa: &AspaDefinition, certified_key: &CertifiedKey, config: &Config, signer: &KrillSigner, object_updates: &mut AspaObjectsUpdates) -> (r: KrillResult<()>)',
+                  body_only=True, tail='Ok(())', requires=[('km', km)],
+                  inner_closures={0: {'header': '|existing: &AspaInfo| -> (o: bool)', 'ensures': 'o == !same_def(existing.definition, *relevant_aspa)'}},
+                  ensures=[
+                      ('issued_iff_missing_or_changed', '''r is Ok ==> (if !self.0@.contains_key(relevant_aspa.customer) || !same_def(self.0@[relevant_aspa.customer].definition, *relevant_aspa) {
+                                final(object_updates).updated@.len() == old(object_updates).updated@.len() + 1
+                                && same_def(final(object_updates).updated@.last().definition, *relevant_aspa)
+                                && final(object_updates).updated@.drop_last() == old(object_updates).updated@
+                            } else { final(object_updates).updated@ == old(object_updates).updated@ })'''),
+                      ('nothing_withdrawn_here', 'final(object_updates).removed@ == old(object_updates).removed@'),
+                  ]),
         U.closure_fn(ASPA, 'AspaObjects', 'create_updates', 0, 'vx_issue_filter',
                      '(aspa: &&AspaDefinition, resources: &ResourceSet) -> (r: bool)',
                      ensures=[('issued_only_for_held_customers', 'r == holds_asn(*resources, aspa.customer)')]),
